@@ -1,9 +1,8 @@
-\* quick (2/2): every pair of accepted URIs one edit apart, everything switched on: ports,
-\* trailing-dot host, segments {a, A, %2e%2e, ""}, <= 2 segments; intended design.
+\* seeded fault "dump_drops_host" (Paths.tla, DumpRrdpFilePath): objects of an RRDP repository are dumped without their rsync host; TLC must reject it (C30_Distinct)
 SPECIFICATION Spec
 CONSTANTS
-  Variant = "intended"
-  Kinds = {"mft", "mftn", "mftr", "ta", "tah", "notify", "notify1"}
+  Variant = "dump_drops_host"
+  Kinds = {"mftr"}
   Mode = "near"
   HostsR = {"h.test", "h.test."}
   HostsH = {"h.test", "h.test.", "..", ""}
